@@ -4,6 +4,7 @@ import (
 	"compress/flate"
 	"compress/gzip"
 	"io"
+	"math"
 	"net/http"
 	"strconv"
 	"strings"
@@ -164,7 +165,19 @@ func (p *polling) onDataRequest(ctx *types.HttpContext) {
 		packet = types.NewStringBuffer(nil)
 	}
 	if body := ctx.Request().Body; body != nil {
-		packet.ReadFrom(body)
+		// the declared length may be absent (chunked body) or wrong: never read more
+		// than the limit allows, plus one byte to notice the excess
+		limit := p.MaxHttpBufferSize()
+		if limit < 0 || limit == math.MaxInt64 {
+			packet.ReadFrom(body)
+		} else if n, _ := packet.ReadFrom(io.LimitReader(body, limit+1)); n > limit {
+			body.Close()
+			cleanup()
+
+			ctx.SetStatusCode(http.StatusRequestEntityTooLarge)
+			ctx.Write(nil)
+			return
+		}
 		body.Close()
 	}
 	p.Proto().OnData(packet)
